@@ -111,7 +111,9 @@ def make_worker(tier):
             st = ("st", tuple(("f%d" % i, i, t) for i, t in enumerate(fields)))
             d = struct_decl("Msg", st, h)
             other = ("struct", "Fine", (("a", 0, U(8), None, None),))
-            decls = h.decls + [other, ("impl", "can", "Fine", None, (("id", 1), ("device", "ecu")), ()), d, ("impl", "can", "Msg", None, (("id", 2), ("device", "ecu")), ())]
+            # every third case binds the struct under another name ('impl can for Msg as MsgAlias')
+            alias = "MsgAlias" if idx % 3 == 1 else None
+            decls = h.decls + [other, ("impl", "can", "Fine", None, (("id", 1), ("device", "ecu")), ()), d, ("impl", "can", "Msg", alias, (("id", 2), ("device", "ecu")), ())]
             text = print_schema(decls)
             env = refcodec.Env(decls)
             fcp = get_fcp_from_string(text, Logger({})).unwrap()
@@ -130,7 +132,7 @@ def make_worker(tier):
             S.add("outcomes", ("dbc", tag, dbc_out is None))
             if must_fail:
                 if dbc_out is not None:
-                    described = any(m["name"] == "Msg" for t in dbc_out.values() for m in dbcread.read(t)["messages"].values())
+                    described = any(m["name"] in ("Msg", "MsgAlias") for t in dbc_out.values() for m in dbcread.read(t)["messages"].values())
                     S.violation("C14.dbc", "C14.dbc/%s/%s" % ("message-emitted" if described else "no-error-reported", tag), dict(inp, generator="dbc"), expected="generation fails, message not described", actual={b: [l for l in t.split("\n") if l.startswith(("BO_", " SG_"))] for b, t in dbc_out.items()})
             else:
                 if dbc_out is None:
@@ -158,7 +160,7 @@ def make_worker(tier):
                 for fn in sorted(os.listdir(out)):
                     written[fn] = open(os.path.join(out, fn)).read()
                 S.add("outcomes", ("c", tag, verdict))
-                mentions = [fn for fn, t in written.items() if "CanMsgMsg" in t]
+                mentions = [fn for fn, t in written.items() if "CanMsgMsg" in t]  # CanMsgMsg or CanMsgMsgAlias
                 if must_fail:
                     if verdict == "ok" or mentions:
                         S.violation("C14.c", "C14.c/%s/%s" % ("message-emitted" if mentions else "no-error-reported", tag), dict(inp, generator="can_c"), expected="command fails, message not described", actual={"verdict": verdict, "files": sorted(written), "mentions": mentions})
@@ -166,7 +168,7 @@ def make_worker(tier):
                     if verdict != "ok":
                         S.violation("C14.c", "C14.c/fitting-message-rejected/%s" % label, dict(inp, generator="can_c"), expected="C generated", actual={"verdict": verdict, "detail": detail})
                     else:
-                        errs = c_geometry_errors(written.get("ecu_can.c", ""), "msg") + c_geometry_errors(written.get("ecu_can.c", ""), "fine")
+                        errs = c_geometry_errors(written.get("ecu_can.c", ""), "msg_alias" if alias else "msg") + c_geometry_errors(written.get("ecu_can.c", ""), "fine")
                         if errs:
                             S.violation("C14.geometry", "C14.geometry/c/%s" % label, dict(inp, generator="can_c"), expected="signals inside the frame, no overlap", actual=errs[:4])
             finally:
